@@ -133,6 +133,7 @@ Qed.
 Lemma hand_rule_status ty h base q c : hand_rule ty h base q = Some (inr c) -> is_status c = true.
 Proof.
   unfold hand_rule. destruct (u_res q) as [res|]; [|discriminate].
+  destruct (has_negzero res); [discriminate|].
   destruct h as [resw|flag resw| |].
   - apply plain_write_status.
   - destruct (populated flag (u_req q)); [discriminate|apply plain_write_status].
